@@ -1135,7 +1135,13 @@ def gen_program(rng, depth=0, in_block=False, budget=None):
             body = [o for o in body if o["t"] is not None]
             ops.append({"op": "bounded_block", "t": t, "len": rng.choice([0, 1, 4, 9, 17, 40]), "body": body})
         elif r < 0.92 and depth < 3:
-            ops.append({"op": "subcontext", "t": t, "type": rng.choice([None, 0, 1, 2]), "body": gen_program(rng, depth + 1, in_block, budget)})
+            if rng.random() < 0.15:
+                # a sub-description that needs no values from the user (only
+                # computed values, or nothing at all)
+                body = [{"op": "computed_value", "t": "t%d" % i, "v": rng.choice([0, 7, "x", None])} for i in range(rng.choice([0, 1, 2]))]
+            else:
+                body = gen_program(rng, depth + 1, in_block, budget)
+            ops.append({"op": "subcontext", "t": t, "type": rng.choice([None, 0, 1, 2]), "body": body})
         elif depth < 3:
             lt = next(lists, None)
             if lt is None:
@@ -1286,7 +1292,7 @@ class C21(Spec):
 
     def generate(self, rng, idx, tier):
         prog = gen_program(rng)
-        fault = rng.choice(["none", "none", "none", "truncate", "delete", "delete_default", "unused", "unused_list", "junk_list", "default_and_unused", "reuse", "unclosed_bb", "unclosed_sub"])
+        fault = rng.choice(["none", "none", "none", "truncate", "delete", "delete_default", "unused", "unused_list", "junk_list", "default_and_unused", "omit_sub_and_unused", "omit_sub_and_unused", "reuse", "unclosed_bb", "unclosed_sub"])
         return {"prog": prog, "bits_seed": rng.randrange(1 << 30), "nbytes": rng.choice([64, 64, 200]), "fault": fault, "fsel": rng.randrange(1 << 16), "ones": rng.random() < 0.2, "plain": rng.random() < 0.5, "le_bitarrays": rng.random() < 0.25}
 
     def shrink(self, case):
@@ -1433,7 +1439,7 @@ class C21(Spec):
         expect_ser = None
         defaults = {}
         decoys = {}
-        if fault in ("delete", "delete_default", "unused", "unused_list", "junk_list", "default_and_unused"):
+        if fault in ("delete", "delete_default", "unused", "unused_list", "junk_list", "default_and_unused", "omit_sub_and_unused"):
             pairs = contexts_of(prog, ctx_in)
             if fault in ("delete", "delete_default"):
                 cands = []
@@ -1504,6 +1510,36 @@ class C21(Spec):
                         del c[o["t"]]
                         c[free[0]] = 123
                         defaults = {type(c): {o["t"]: False if o["op"] == "bool" else 0}}
+                        expect_ser = (bs_exc.UnusedTargetError,)
+            elif fault == "omit_sub_and_unused":
+                # two cooperating faults in one (non-root) context: a nested
+                # sub-description that needs no user values is left out
+                # altogether (legal: the serialiser creates it), and the context
+                # holds a value nobody uses — which must still be reported
+                cands = []
+                for c, p in pairs[1:]:
+                    subs = [o for o in p if o["op"] == "subcontext"]
+                    if subs and not subs[-1]["t"].startswith("L") and all(b["op"] == "computed_value" for b in subs[-1]["body"]) and subs[-1]["t"] in c:
+                        cands.append((c, p, subs[-1]))
+                if not cands:
+                    fault = "none"
+                else:
+                    c, p, o = fr.choice(cands)
+
+                    def targets3(q):
+                        out = set()
+                        for oo in q:
+                            out.add(oo["t"])
+                            if oo["op"] in ("bounded_block", "bb_begin_unclosed"):
+                                out |= targets3(oo["body"])
+                        return out
+
+                    free = [t for t in _T_NAMES if t not in targets3(p)]
+                    if not free:
+                        fault = "none"
+                    else:
+                        del c[o["t"]]
+                        c[free[0]] = 123
                         expect_ser = (bs_exc.UnusedTargetError,)
             elif fault == "junk_list":
                 # a non-list value provided under a list target: it can be
